@@ -717,6 +717,164 @@ theorem gjk_precise_certificate2 (hs : LawfulSqrt sq) (C : V2 K → Prop) (fs : 
     (fun c hc => by have := hsup dir c hc; simp only [V2.dot] at hlow; linarith)
 
 
+
+/-- **every result of the 3-D loop is a loop-body exit, or the documented iteration-cap fallback** `NoIntersection(x_axis)`
+(`niter == 100`: "GJK did not converge"). Hence the exit theorems above (`gjkBody3_noIntersection_sound`,
+`gjkBody3_closest_cases`, `gjk_precise_certificate3`) apply to whatever `gjk::closest_points` returns, for the state of the
+iteration in which it returned. -/
+theorem gjkLoop3_cases {K : Type} [Num K] (fs : V3 K → CSO3 K) (maxDist : Option K) (exact : Bool) (fuel : Nat) :
+    ∀ (s : Vs3 K) (proj oldDir : V3 K) (maxBound : Option K) (r : GjkRes3 K) (s' : Vs3 K),
+    gjkLoop3 fs maxDist exact fuel s proj oldDir maxBound = (r, s') →
+    r = .noIntersection ⟨1, 0, 0⟩ ∨
+    ∃ s0 p0 o0 m0, gjkBody3 fs maxDist exact s0 p0 o0 m0 = .exit r s' := by
+  induction fuel with
+  | zero =>
+    intro s proj oldDir maxBound r s' h
+    simp only [gjkLoop3, Prod.mk.injEq] at h
+    exact Or.inl h.1.symm
+  | succ n ih =>
+    intro s proj oldDir maxBound r s' h
+    simp only [gjkLoop3] at h
+    rcases hb : gjkBody3 fs maxDist exact s proj oldDir maxBound with ⟨r0, s0⟩ | ⟨s1, p1, o1, m1⟩
+    · rw [hb] at h
+      simp only [Prod.mk.injEq] at h
+      exact Or.inr ⟨s, proj, oldDir, maxBound, by rw [hb, h.1, h.2]⟩
+    · rw [hb] at h
+      exact ih s1 p1 o1 (some m1) r s' h
+
+/-- `gjk::closest_points` (3-D): besides the loop results there is only the early `Intersection` (the first projection is the
+origin itself) and the panic of the first reduction. -/
+theorem gjkClosestPoints3_cases {K : Type} [Num K] (fs : V3 K → CSO3 K) (maxDist : Option K) (exact : Bool)
+    (s s' : Vs3 K) (r : GjkRes3 K) :
+    gjkClosestPoints3 fs maxDist exact s = (r, s') →
+    r = .panic ∨ r = .intersection ∨ r = .noIntersection ⟨1, 0, 0⟩ ∨
+    ∃ s0 p0 o0 m0, gjkBody3 fs maxDist exact s0 p0 o0 m0 = .exit r s' := by
+  intro h
+  unfold gjkClosestPoints3 at h
+  rcases hp : s.projectOriginAndReduce with _ | ⟨s1, pr⟩
+  · rw [hp] at h; simp only [Prod.mk.injEq] at h; exact Or.inl h.1.symm
+  · rw [hp] at h
+    dsimp only at h
+    rcases ht : C10.tryNew3 pr 0 with _ | d
+    · rw [ht] at h; simp only [Prod.mk.injEq] at h; exact Or.inr (Or.inl h.1.symm)
+    · rw [ht] at h
+      exact Or.inr (Or.inr (gjkLoop3_cases fs maxDist exact 100 s1 pr d.neg none r s' h))
+
+/-- **every result of the 2-D loop is a loop-body exit, or the documented iteration-cap fallback** `NoIntersection(x_axis)`
+(`niter == 100`: "GJK did not converge"). Hence the exit theorems above (`gjkBody2_noIntersection_sound`,
+`gjkBody2_closest_cases`, `gjk_precise_certificate2`) apply to whatever `gjk::closest_points` returns, for the state of the
+iteration in which it returned. -/
+theorem gjkLoop2_cases {K : Type} [Num K] (fs : V2 K → CSO2 K) (maxDist : Option K) (exact : Bool) (fuel : Nat) :
+    ∀ (s : Vs2 K) (proj oldDir : V2 K) (maxBound : Option K) (r : GjkRes2 K) (s' : Vs2 K),
+    gjkLoop2 fs maxDist exact fuel s proj oldDir maxBound = (r, s') →
+    r = .noIntersection ⟨1, 0⟩ ∨
+    ∃ s0 p0 o0 m0, gjkBody2 fs maxDist exact s0 p0 o0 m0 = .exit r s' := by
+  induction fuel with
+  | zero =>
+    intro s proj oldDir maxBound r s' h
+    simp only [gjkLoop2, Prod.mk.injEq] at h
+    exact Or.inl h.1.symm
+  | succ n ih =>
+    intro s proj oldDir maxBound r s' h
+    simp only [gjkLoop2] at h
+    rcases hb : gjkBody2 fs maxDist exact s proj oldDir maxBound with ⟨r0, s0⟩ | ⟨s1, p1, o1, m1⟩
+    · rw [hb] at h
+      simp only [Prod.mk.injEq] at h
+      exact Or.inr ⟨s, proj, oldDir, maxBound, by rw [hb, h.1, h.2]⟩
+    · rw [hb] at h
+      exact ih s1 p1 o1 (some m1) r s' h
+
+/-- `gjk::closest_points` (2-D): besides the loop results there is only the early `Intersection` (the first projection is the
+origin itself) and the panic of the first reduction. -/
+theorem gjkClosestPoints2_cases {K : Type} [Num K] (fs : V2 K → CSO2 K) (maxDist : Option K) (exact : Bool)
+    (s s' : Vs2 K) (r : GjkRes2 K) :
+    gjkClosestPoints2 fs maxDist exact s = (r, s') →
+    r = .panic ∨ r = .intersection ∨ r = .noIntersection ⟨1, 0⟩ ∨
+    ∃ s0 p0 o0 m0, gjkBody2 fs maxDist exact s0 p0 o0 m0 = .exit r s' := by
+  intro h
+  unfold gjkClosestPoints2 at h
+  rcases hp : s.projectOriginAndReduce with _ | ⟨s1, pr⟩
+  · rw [hp] at h; simp only [Prod.mk.injEq] at h; exact Or.inl h.1.symm
+  · rw [hp] at h
+    dsimp only at h
+    rcases ht : C10.tryNew2 pr 0 with _ | d
+    · rw [ht] at h; simp only [Prod.mk.injEq] at h; exact Or.inr (Or.inl h.1.symm)
+    · rw [ht] at h
+      exact Or.inr (Or.inr (gjkLoop2_cases fs maxDist exact 100 s1 pr d.neg none r s' h))
+
+
+/-- **the `*_with_params` entry points start from a history-free simplex** (3-D): whatever simplex the caller supplies, after
+the common head the live part is the single support point `from_shapes(d)` for a start direction `d` that does not depend on the
+supplied simplex (normalised `init_dir` / `-translation`, or the x axis when that vector is shorter than `DEFAULT_EPSILON`). -/
+theorem gjkStart3_spec {K : Type} [Num K] (fs : V3 K → CSO3 K) (t : V3 K) (init : Option (V3 K)) (s : Vs3 K) :
+    (gjkStart3 fs t init s).dim = 0 ∧ (gjkStart3 fs t init s).prevDim = 0 ∧
+    ∃ d, ∀ s2 : Vs3 K, (gjkStart3 fs t init s2).v0 = fs d := by
+  unfold gjkStart3
+  dsimp only
+  rcases C10.tryNew3 (match init with | none => t.neg | some d => d) C10.eps with _ | d
+  · exact ⟨rfl, rfl, ⟨1, 0, 0⟩, fun _ => rfl⟩
+  · exact ⟨rfl, rfl, d, fun _ => rfl⟩
+
+/-- **`distance` is glue around `gjk::closest_points`** (3-D, `distance_support_map_support_map_with_params`): the value is `0`
+for `Intersection`, the length of the witness gap `|p1 - p2| ≥ 0` for `ClosestPoints`, and `0` for the documented
+non-convergence fallback `NoIntersection`. -/
+theorem distanceSmSmWithParams3_spec (hs : LawfulSqrt sq) (fs : V3 K → CSO3 K) (t : V3 K) (s s' : Vs3 K)
+    (init : Option (V3 K)) (x : K) :
+    letI := fieldNum K sq
+    distanceSmSmWithParams3 fs t s init = (some x, s') →
+    ((gjkClosestPoints3 fs none true (gjkStart3 fs t init s)).1 = .intersection ∧ x = 0) ∨
+    (∃ p1 p2 d, (gjkClosestPoints3 fs none true (gjkStart3 fs t init s)).1 = .closest p1 p2 d ∧
+        0 ≤ x ∧ x * x = (p1.sub p2).normSq) ∨
+    (∃ d, (gjkClosestPoints3 fs none true (gjkStart3 fs t init s)).1 = .noIntersection d ∧ x = 0) := by
+  letI := fieldNum K sq
+  intro h
+  unfold distanceSmSmWithParams3 at h
+  dsimp only at h
+  rcases hr : (gjkClosestPoints3 fs none true (gjkStart3 fs t init s)).1 with _ | ⟨p1, p2, d⟩ | d | d | _
+  all_goals rw [hr] at h
+  all_goals simp only [Prod.mk.injEq, Option.some.injEq, reduceCtorEq, false_and] at h
+  · exact Or.inl ⟨rfl, h.1.symm⟩
+  · refine Or.inr (Or.inl ⟨p1, p2, d, rfl, ?_, ?_⟩)
+    · rw [← h.1]; exact hs.nonneg _ (by simp only [V3.normSq, V3.dot]; nlinarith [mul_self_nonneg (p1.sub p2).x, mul_self_nonneg (p1.sub p2).y, mul_self_nonneg (p1.sub p2).z])
+    · rw [← h.1]; exact hs.sq_mul _ (by simp only [V3.normSq, V3.dot]; nlinarith [mul_self_nonneg (p1.sub p2).x, mul_self_nonneg (p1.sub p2).y, mul_self_nonneg (p1.sub p2).z])
+  · exact Or.inr (Or.inr ⟨d, rfl, h.1.symm⟩)
+
+/-- **the `*_with_params` entry points start from a history-free simplex** (2-D): whatever simplex the caller supplies, after
+the common head the live part is the single support point `from_shapes(d)` for a start direction `d` that does not depend on the
+supplied simplex (normalised `init_dir` / `-translation`, or the x axis when that vector is shorter than `DEFAULT_EPSILON`). -/
+theorem gjkStart2_spec {K : Type} [Num K] (fs : V2 K → CSO2 K) (t : V2 K) (init : Option (V2 K)) (s : Vs2 K) :
+    (gjkStart2 fs t init s).dim = 0 ∧ (gjkStart2 fs t init s).prevDim = 0 ∧
+    ∃ d, ∀ s2 : Vs2 K, (gjkStart2 fs t init s2).v0 = fs d := by
+  unfold gjkStart2
+  dsimp only
+  rcases C10.tryNew2 (match init with | none => t.neg | some d => d) C10.eps with _ | d
+  · exact ⟨rfl, rfl, ⟨1, 0⟩, fun _ => rfl⟩
+  · exact ⟨rfl, rfl, d, fun _ => rfl⟩
+
+/-- **`distance` is glue around `gjk::closest_points`** (2-D, `distance_support_map_support_map_with_params`): the value is `0`
+for `Intersection`, the length of the witness gap `|p1 - p2| ≥ 0` for `ClosestPoints`, and `0` for the documented
+non-convergence fallback `NoIntersection`. -/
+theorem distanceSmSmWithParams2_spec (hs : LawfulSqrt sq) (fs : V2 K → CSO2 K) (t : V2 K) (s s' : Vs2 K)
+    (init : Option (V2 K)) (x : K) :
+    letI := fieldNum K sq
+    distanceSmSmWithParams2 fs t s init = (some x, s') →
+    ((gjkClosestPoints2 fs none true (gjkStart2 fs t init s)).1 = .intersection ∧ x = 0) ∨
+    (∃ p1 p2 d, (gjkClosestPoints2 fs none true (gjkStart2 fs t init s)).1 = .closest p1 p2 d ∧
+        0 ≤ x ∧ x * x = (p1.sub p2).normSq) ∨
+    (∃ d, (gjkClosestPoints2 fs none true (gjkStart2 fs t init s)).1 = .noIntersection d ∧ x = 0) := by
+  letI := fieldNum K sq
+  intro h
+  unfold distanceSmSmWithParams2 at h
+  dsimp only at h
+  rcases hr : (gjkClosestPoints2 fs none true (gjkStart2 fs t init s)).1 with _ | ⟨p1, p2, d⟩ | d | d | _
+  all_goals rw [hr] at h
+  all_goals simp only [Prod.mk.injEq, Option.some.injEq, reduceCtorEq, false_and] at h
+  · exact Or.inl ⟨rfl, h.1.symm⟩
+  · refine Or.inr (Or.inl ⟨p1, p2, d, rfl, ?_, ?_⟩)
+    · rw [← h.1]; exact hs.nonneg _ (by simp only [V2.normSq, V2.dot]; nlinarith [mul_self_nonneg (p1.sub p2).x, mul_self_nonneg (p1.sub p2).y])
+    · rw [← h.1]; exact hs.sq_mul _ (by simp only [V2.normSq, V2.dot]; nlinarith [mul_self_nonneg (p1.sub p2).x, mul_self_nonneg (p1.sub p2).y])
+  · exact Or.inr (Or.inr ⟨d, rfl, h.1.symm⟩)
+
 /-! ## non-vacuity of the hypotheses -/
 
 /-- `Vs2Ok` holds for a genuine triangle simplex (vertices (2,1), (-1,1), (0,-2): the origin is inside) -/
